@@ -322,6 +322,32 @@ def check_router(ctx, model):
             ctx.ob("C06-X6", "%s|profit|%s" % (COMPLETE, rv["variant"]), ok, "initiator is paid %s (must be balance.checked_sub(payback))" % sorted(map(repr, amt_o))[:4], cv.where(b))
         else:
             ctx.ob("C06-X6", "%s|unknown-recipient|%s" % (COMPLETE, rv["variant"]), False, "transfer to %s" % sorted(map(repr, to_o)), cv.where(b))
+    # the profit transfer is skipped only for a profit of exactly zero (ordering-domain walk over the constants the code
+    # compares the profit with): any positive remainder, one base unit included, goes to the initiator
+    from fractions import Fraction
+    from ..dataflow import single_var_guard, single_var_regions, single_var_walk
+    is_profit = lambda os_: bool(os_) and all(o.kind == "call" and o.a.endswith("Uint128::checked_sub") for o in os_)
+    tracked, ths = single_var_guard(cv, is_profit, [Fraction(0)])
+    profit_blocks = []
+    for b, i, s in cv.iter_stmts():
+        rv = s["rv"]
+        if rv["r"] == "agg" and ((rv.get("adt") == "cosmwasm_std::BankMsg" and rv.get("variant") == "Send") or (rv.get("adt") == "cw20::Cw20ExecuteMsg" and rv.get("variant") == "Transfer")):
+            f = dict(zip(rv["fields"], rv["ops"]))
+            to_o = cv.origins_of_operand(f.get("to_address", f.get("recipient")), at=(b, i))
+            if to_o and all(o.kind == "param" and o.a == 1 for o in to_o):
+                profit_blocks.append(b)
+    rows, bad = [], []
+    for x in single_var_regions(ths):
+        if x < 0:
+            continue
+        reach = single_var_walk(cv, tracked, x)
+        sent = any(b in reach for b in profit_blocks)
+        rows.append("%s:%s" % (x, "sent" if sent else "kept"))
+        if x > 0 and not sent:
+            bad.append("a profit of %s stays in the router" % x)
+    unresolved = getattr(cv, "_unresolved_cmp", [])
+    ctx.ob("C06-X6", "%s|router-keeps-nothing" % COMPLETE, bool(tracked) and bool(profit_blocks) and not bad and not unresolved,
+           ("MISMATCH %s | " % bad if bad else "") + "profit regions: %s%s" % (rows, " (unevaluated constant in a comparison)" if unresolved else ""), cv.where())
     ctx.floor("C06-X6", "payback transfers in complete_loan", n_pay, 2)
     ctx.floor("C06-X6", "profit transfers in complete_loan", n_profit, 2)
     # profit = final_amount.checked_sub(quote) with the error propagated
